@@ -143,6 +143,12 @@ func (r *c9Runner) assignSegments() map[*c9AU]*c9AU {
 		}
 		first[u] = cur
 	}
+	r.maxSeg = new(big.Rat)
+	for i := 1; i+1 < len(starts); i++ {
+		if d := new(big.Rat).Sub(starts[i+1].u.tsec, starts[i].u.tsec); d.Cmp(r.maxSeg) > 0 {
+			r.maxSeg = d
+		}
+	}
 	if r.variant == "ts" {
 		for ti, t := range r.tracks {
 			if ti == lead {
@@ -180,6 +186,16 @@ func (r *c9Runner) evaluate() {
 				for _, d := range l {
 					if d.abs != nil {
 						abs++
+					}
+				}
+			}
+			for ti, l := range c.logs {
+				if len(l) > 0 {
+					r.mu.Lock()
+					f, g := r.byPay[l[0].ids[0]], r.byPay[l[len(l)-1].ids[0]]
+					r.mu.Unlock()
+					if f != nil && g != nil {
+						fmt.Fprintf(os.Stderr, "E2E-DEBUG   track %d: first %s s last %s s (maxSeg %s)\n", ti, f.tsec.FloatString(4), g.tsec.FloatString(4), r.maxSeg.FloatString(4))
 					}
 				}
 			}
@@ -227,6 +243,11 @@ func (r *c9Runner) evalClient(c *c9ClientRun, segFirst map[*c9AU]*c9AU) {
 		} else {
 			fail("", "client fatal \"could not find data of leading track\" although every served part/segment carried samples")
 		}
+	case "err:targetduration0":
+		// outside the generator's scope (every generated case has a first segment longer than 0.5 s); seen in shrunk
+		// or hand-made cases only
+		fail("Fxx-target-duration-zero:", "every listed segment is shorter than 0.5 s: the muxer announces EXT-X-TARGETDURATION:0, which the library's own playlist reader rejects (\"TARGETDURATION not set\")")
+		return
 	case "err:ts-init":
 		lacks := false
 		for _, s := range c.served {
@@ -361,6 +382,97 @@ func (r *c9Runner) evalClient(c *c9ClientRun, segFirst map[*c9AU]*c9AU) {
 				}
 				prev = u.seq
 				hits[i] = append(hits[i], hit{u, d, k})
+			}
+		}
+	}
+
+	// ---- nothing missing. Timing-independent: the harness decodes every segment / part the muxer served to THIS
+	// client; a stream is processed strictly in download order, so a response is fully processed when a later
+	// response of the same stream has a delivered unit, or (traditional streams: the next segment is requested only
+	// after the previous one was taken off the queue) when it is at least four responses old (one segment may be in processing, one queued, one in download), or when the client was
+	// closed idle. Every unit in a fully processed response that does not precede the origin must have been
+	// delivered (MPEG-TS: the first response is exempt for non-leading tracks - units handed over before the first
+	// leading-track unit are dropped, C10's gating reading).
+	{
+		lp := -1
+		for i, ti := range want {
+			if ti == lead {
+				lp = i
+			}
+		}
+		delivered := map[int]bool{}
+		trackPos := map[int]int{}
+		for i, ti := range want {
+			trackPos[ti] = i
+			for _, h := range hits[i] {
+				delivered[h.u.pay] = true
+			}
+		}
+		if lp >= 0 && len(hits[lp]) > 0 {
+			origin := hits[lp][0].u.tsec
+			byStream := map[string][]c9Served{}
+			var order []string
+			for _, sv := range c.served {
+				if !sv.media {
+					continue
+				}
+				if _, ok := byStream[sv.stream]; !ok {
+					order = append(order, sv.stream)
+				}
+				byStream[sv.stream] = append(byStream[sv.stream], sv)
+			}
+			nMissing := 0
+			for _, sid := range order {
+				rs := byStream[sid]
+				if os.Getenv("VERIF_E2E_DEBUG") == "2" {
+					for i, sv := range rs {
+						nd := 0
+						for _, p := range sv.pays {
+							if delivered[p] {
+								nd++
+							}
+						}
+						fmt.Fprintf(os.Stderr, "E2E-DEBUG   client %d stream %s resp %d %s units=%d delivered=%d\n", c.idx, sid, i, c9Canonical(strings.TrimPrefix(sv.path, "/")), len(sv.pays), nd)
+					}
+				}
+				last := -1
+				for i, sv := range rs {
+					for _, p := range sv.pays {
+						if delivered[p] {
+							last = i
+						}
+					}
+				}
+				for i, sv := range rs {
+					processed := i < last || (r.variant != "ll" && i <= len(rs)-4) || (r.idle && c.end == "closed")
+					if !processed || nMissing >= 2 {
+						continue
+					}
+					for _, p := range sv.pays {
+						r.mu.Lock()
+						u := r.byPay[p]
+						r.mu.Unlock()
+						if u == nil || delivered[p] {
+							continue
+						}
+						pos, exposed := trackPos[u.track]
+						if !exposed {
+							continue
+						}
+						if r.variant == "ts" && i == 0 && u.track != lead {
+							continue
+						}
+						// at least one tick after the origin in the client's clock rate
+						after := new(big.Rat).Mul(new(big.Rat).Sub(u.psec, origin), ratOf(int64(c.tracks[pos].ClockRate), 1))
+						if after.Cmp(ratOf(1, 1)) < 0 {
+							continue
+						}
+						nMissing++
+						fail("", "track %d (%s): unit %d, written at %s s (%s ticks after the origin), is in %s which the client downloaded and processed, but was not delivered",
+							pos, r.tracks[u.track].codec, p, u.tsec.FloatString(4), after.FloatString(1), c9Canonical(strings.TrimPrefix(sv.path, "/")))
+						break
+					}
+				}
 			}
 		}
 	}
